@@ -577,6 +577,11 @@ class ConcWorld(BaseWorld):
         if self.int_driver:
             v += 0.5  # a number with a fractional part next to integer-typed arrays
         self.inputs[name] = v
+        if self.square:
+            # on the odd runs plain numbers are numpy scalars (what x.sum_values(), values.max() or np.sum give):
+            # still numbers, but numpy's own operators get the first say when they stand on the left
+            self.inputs.setdefault("numpy_scalar_numbers", []).append(name)
+            return _np.float64(v)
         return v
 
     def ndarray(self, name, shape, kind="real"):
